@@ -26,7 +26,7 @@ type recvLoop struct {
 }
 
 func analyseRecvLoop(w *World, fn *ssa.Function) (*recvLoop, error) {
-	calls := w.callsIn(fn, "stanza.NextPacket")
+	calls := w.callsInH(fn, "stanza.NextPacket")
 	if len(calls) != 1 {
 		return nil, fmt.Errorf("%s: expected exactly one stanza.NextPacket call, found %d", w.funcKey(fn), len(calls))
 	}
